@@ -23,7 +23,7 @@ def expls(tier):
 
 def bclass(sid):
     return {"Bsym": "symmetric-bounds", "B1": "symmetric-bounds", "Basym": "asymmetric-bounds", "B1asym": "asymmetric-bounds",
-            "Bper": "perdim-bounds", "Bper2": "perdim-bounds"}[sid]
+            "Bper": "perdim-bounds", "Bper2": "perdim-bounds", "Bnd": "asymmetric-bounds"}[sid]
 
 
 def bounds(tier):
